@@ -1137,9 +1137,453 @@ Proof.
   - now apply call_unpack_nodup0.
 Qed.
 
+
+(* ====================== ParametersSpecBuilder: the builder computes build_spec ====================== *)
+
+(* ====================== ParametersSpecBuilder ====================== *)
+Definition stage_of_style (st : style) : nat :=
+  match st with SPosOnly => 0 | SPosOrNamed => 1 | SNamedOnly => 3 | SNoMore => 5 end.
+Definition pent (p : param) : name * pkindI V := (pname p, kind_of p).
+
+Lemma order_no_posonly : forall (r : sig) st, 1 <= st -> order_ok st (map (@pkd V) r) = true ->
+  filter (@is_posonly V) r = [].
+Proof.
+  intros r st Hst H. apply filter_none. apply order_ok_ge in H. rewrite Forall_forall in *.
+  intros p Hin. specialize (H (pkd p) (in_map _ _ _ Hin)). unfold is_posonly.
+  destruct (pkd p); simpl in *; auto; lia.
+Qed.
+Lemma order_no_positional : forall (r : sig) st, 2 <= st -> order_ok st (map (@pkd V) r) = true ->
+  filter (@is_positional V) r = [].
+Proof.
+  intros r st Hst H. apply filter_none. apply order_ok_ge in H. rewrite Forall_forall in *.
+  intros p Hin. specialize (H (pkd p) (in_map _ _ _ Hin)). unfold is_positional.
+  destruct (pkd p); simpl in *; auto; lia.
+Qed.
+Lemma order_nil : forall (r : sig), order_ok 5 (map (@pkd V) r) = true -> r = [].
+Proof. destruct r as [|p r]; auto. simpl. destruct (pkd p); simpl; discriminate. Qed.
+
+Definition binv (npo np : nat) (b : bstate V) (r : sig) : Prop :=
+  let i := length (b_params b) in
+  order_ok (stage_of_style (b_style b)) (map (@pkd V) r) = true /\
+  (forall p, In p r -> assoc_nat (pname p) (b_names b) = None) /\
+  match b_style b with
+  | SPosOnly => b_npos_only b = i /\ b_npos b = i /\ npo = i + length (filter (@is_posonly V) r) /\
+                np = i + length (filter (@is_positional V) r) /\ b_args b = None /\ b_kwargs b = None
+  | SPosOrNamed => b_npos_only b = npo /\ b_npos b = i /\ npo < i /\
+                   np = i + length (filter (@is_positional V) r) /\ b_args b = None /\ b_kwargs b = None
+  | SNamedOnly => b_npos_only b = npo /\ b_npos b = np /\ npo < i /\ np < i /\ b_kwargs b = None
+  | SNoMore => b_npos_only b = npo /\ b_npos b = np
+  end.
+
+Definition param_steps (npo np i : nat) (p : param) : list (bstep V) :=
+  (if (i =? npo) && negb (is_variadic p) then [BNoMorePosOnly] else [])
+  ++ (if (i =? np) && negb (is_variadic p) then [BNoMorePos] else [])
+  ++ [step_of_param p].
+Lemma steps_from_cons : forall npo np i p (r : sig),
+  steps_from npo np i (p :: r) = param_steps npo np i p ++ steps_from npo np (S i) r.
+Proof. intros. unfold param_steps. simpl. rewrite <- !app_assoc. reflexivity. Qed.
+
+Definition opt_or (o : option nat) (x : option nat) : option nat := match o with Some a => Some a | None => x end.
+
+Lemma assoc_nat_app : forall n (l1 l2 : list (name * nat)),
+  assoc_nat n (l1 ++ l2) = match assoc_nat n l1 with Some v => Some v | None => assoc_nat n l2 end.
+Proof. induction l1 as [|[k v] l IH]; intros; simpl; auto. destruct (n =? k); auto. Qed.
+
+Lemma bstep_param : forall npo np b p (r : sig),
+  binv npo np b (p :: r) -> ~ In (pname p) (map (@pname V) r) ->
+  exists b1, fold_left (@builder_step V) (param_steps npo np (length (b_params b)) p) (Some b) = Some b1 /\
+    binv npo np b1 r /\ b_params b1 = b_params b ++ [pent p] /\
+    b_names b1 = b_names b ++ (if kwable p then [(pname p, length (b_params b))] else []) /\
+    b_args b1 = opt_or (b_args b) (if pkind_eqb (pkd p) VarArgs then Some (length (b_params b)) else None) /\
+    b_kwargs b1 = opt_or (b_kwargs b) (if pkind_eqb (pkd p) VarKw then Some (length (b_params b)) else None).
+Proof.
+  intros npo np [params names po pos sty args kwargs] [n k d] r (Hord & Hnames & Hsty) Hnd.
+  cbn [b_params b_names b_npos_only b_npos b_style b_args b_kwargs] in *.
+  assert (Hn : assoc_nat n names = None). { apply (Hnames (mkParam n k d)). apply in_eq. }
+  assert (Hnames' : forall p, In p r -> assoc_nat (pname p) (names ++ [(n, length params)]) = None).
+  { intros q Hq. rewrite assoc_nat_app, (Hnames q (or_intror Hq)). simpl.
+    destruct (pname q =? n) eqn:E; auto. apply Nat.eqb_eq in E. exfalso. apply Hnd. simpl. rewrite <- E. apply in_map. exact Hq. }
+  assert (Hnames0 : forall p, In p r -> assoc_nat (pname p) names = None) by (intros q Hq; apply Hnames; now right).
+  destruct sty; destruct k; cbn [stage_of_style map pkd order_ok stage] in Hord;
+    try (simpl in Hord; discriminate Hord).
+  all: simpl in Hord.
+  all: match type of Hord with order_ok ?X _ = true =>
+         try (assert (Fpo : filter (@is_posonly V) r = []) by (apply (order_no_posonly r X); [lia | exact Hord]));
+         try (assert (Fpos : filter (@is_positional V) r = []) by (apply (order_no_positional r X); [lia | exact Hord]))
+       end.
+  all: cbn [filter is_posonly is_positional pkd] in Hsty; rewrite ?Fpo, ?Fpos in Hsty; cbn [length] in Hsty.
+  all: decompose [and] Hsty; clear Hsty; subst.
+  all: unfold param_steps; cbn [is_variadic pkd negb andb].
+  all: repeat match goal with |- context [?a =? ?b] => destruct (Nat.eqb_spec a b); try (exfalso; lia) end.
+  all: destruct d as [dv|]; cbn [andb app fold_left step_of_param pkd pdef pname].
+  all: unfold builder_step, b_add; cbn [b_params b_names b_npos_only b_npos b_style b_args b_kwargs style_rank
+         is_some_nat negb andb Nat.ltb Nat.leb Nat.eqb pname]; rewrite ?Hn.
+  all: eexists; split; [reflexivity|].
+  all: unfold binv, pent, kind_of, kwable, opt_or; cbn [b_params b_names b_npos_only b_npos b_style b_args b_kwargs pname pkd pdef
+         stage_of_style pkind_eqb]; rewrite ?app_length; cbn [length].
+  all: rewrite ?app_nil_r.
+  all: repeat split; auto; try lia.
+  all: try (rewrite ?Fpo, ?Fpos; simpl; lia).
+  all: destruct args; reflexivity.
+Qed.
+
+Lemma opt_or_none : forall o, opt_or o None = o.
+Proof. destruct o; reflexivity. Qed.
+
+Lemma builder_suffix : forall (r : sig) npo np b,
+  binv npo np b r -> NoDup (map (@pname V) r) ->
+  exists b', fold_left (@builder_step V) (steps_from npo np (length (b_params b)) r) (Some b) = Some b' /\
+    b_params b' = b_params b ++ map pent r /\
+    b_names b' = b_names b ++ names_from (length (b_params b)) r /\
+    b_npos_only b' = npo /\ b_npos b' = np /\
+    b_args b' = opt_or (b_args b) (find_kind VarArgs (length (b_params b)) r) /\
+    b_kwargs b' = opt_or (b_kwargs b) (find_kind VarKw (length (b_params b)) r).
+Proof.
+  induction r as [|p r IH]; intros npo np b Hinv Hnd.
+  - exists b. simpl. rewrite !app_nil_r, !opt_or_none. repeat split; auto.
+    + destruct Hinv as (_ & _ & H). destruct (b_style b); simpl in H; lia.
+    + destruct Hinv as (_ & _ & H). destruct (b_style b); simpl in H; lia.
+  - simpl in Hnd. inversion Hnd as [|? ? Hnotin Hnd']; subst.
+    destruct (bstep_param npo np b p r Hinv Hnotin) as (b1 & F1 & I1 & P1 & N1 & A1 & K1).
+    assert (L1 : length (b_params b1) = S (length (b_params b))) by (rewrite P1, app_length; simpl; lia).
+    destruct (IH npo np b1 I1 Hnd') as (b' & F' & P' & N' & O' & Q' & A' & K').
+    exists b'. rewrite steps_from_cons, fold_left_app, F1, <- L1. split; [exact F'|].
+    rewrite L1 in N', A', K'. rewrite P', N', A', K', P1, N1, A1, K1. cbn [map names_from find_kind]. rewrite <- !app_assoc.
+    repeat split; auto.
+    + destruct (b_args b); simpl; auto. destruct (pkind_eqb (pkd p) VarArgs); reflexivity.
+    + destruct (b_kwargs b); simpl; auto. destruct (pkind_eqb (pkd p) VarKw); reflexivity.
+Qed.
+
+Lemma filter_len_impl : forall (A : Type) (f g : A -> bool) l, (forall x, f x = true -> g x = true) ->
+  length (filter f l) <= length (filter g l).
+Proof.
+  induction l as [|x l IH]; intros H; simpl; auto. specialize (IH H).
+  destruct (f x) eqn:Ef; [rewrite (H _ Ef); simpl; lia|]. destruct (g x); simpl; lia.
+Qed.
+
+(* finish() after the method calls InstrDefImpl makes for a well-formed parameter list is build_spec *)
+Theorem builder_builds_spec : forall sg : sig, wf_sig sg = true -> run_builder (steps_of sg) = Some (build_spec sg).
+Proof.
+  intros sg Hwf. unfold wf_sig in Hwf. apply andb_prop in Hwf. destruct Hwf as [Ho Hn]. apply nodupb_NoDup in Hn.
+  unfold run_builder, steps_of.
+  set (npo := length (filter (@is_posonly V) sg)). set (np := length (filter (@is_positional V) sg)).
+  assert (Hinv : binv npo np (@b_init V) sg).
+  { unfold binv, b_init. simpl. repeat split; auto. }
+  destruct (builder_suffix sg npo np _ Hinv Hn) as (b' & F & P & N & O & Q & A & K). simpl in F, P, N, A, K.
+  change (length (b_params (@b_init V))) with 0 in F. rewrite F. unfold b_finish. rewrite O, Q.
+  assert (Hle : npo <=? np = true).
+  { apply Nat.leb_le. apply filter_len_impl. intros x. unfold is_posonly, is_positional. destruct (pkd x); auto. }
+  rewrite Hle, P, N, A, K. unfold build_spec. f_equal. f_equal; rewrite map_map; reflexivity.
+Qed.
+
+(* ---- the asserts of the builder = the four-phase order automaton + distinct names ---- *)
+Lemma fold_builder_none : forall l, fold_left (@builder_step V) l None = None.
+Proof. induction l; simpl; auto. Qed.
+Lemma assoc_nat_existsb : forall n (l : list (name * nat)),
+  is_some_nat (assoc_nat n l) = existsb (Nat.eqb n) (map fst l).
+Proof. induction l as [|[k v] l IH]; simpl; auto. destruct (n =? k); simpl; auto. Qed.
+
+Definition bwf (b : bstate V) : Prop :=
+  (is_some_nat (b_kwargs b) = true <-> b_style b = SNoMore) /\
+  (is_some_nat (b_args b) = true -> 2 <= style_rank (b_style b)).
+
+Theorem builder_order_checked_gen : forall l b, bwf b ->
+  (fold_left (@builder_step V) l (Some b) <> None <->
+   steps_ok (style_rank (b_style b)) (map fst (b_names b)) l = true).
+Proof.
+  induction l as [|st l IH]; intros b Hwf.
+  - simpl. split; auto. discriminate.
+  - destruct b as [params names po pos sty args kwargs]. destruct Hwf as [[W1 W2] W3]. simpl in W1, W2, W3.
+    cbn [fold_left].
+    destruct sty, args as [a|], kwargs as [k|]; simpl in W1, W2, W3;
+      try (specialize (W1 eq_refl); discriminate W1); try (specialize (W2 eq_refl); discriminate W2);
+      try (specialize (W3 eq_refl); lia).
+    all: clear W1 W2 W3.
+    all: destruct st as [n|n|n v|n|n| |]; unfold builder_step, b_add;
+         cbn [b_params b_names b_npos_only b_npos b_style b_args b_kwargs style_rank is_some_nat negb andb
+              Nat.ltb Nat.leb Nat.eqb steps_ok].
+    all: try (rewrite <- assoc_nat_existsb; destruct (assoc_nat n names) eqn:E; cbn [is_some_nat negb andb]).
+    all: try (rewrite fold_builder_none; split; [intro H; exfalso; apply H; reflexivity | discriminate]).
+    all: (eapply iff_trans;
+          [apply IH; unfold bwf; cbn [b_style b_args b_kwargs is_some_nat style_rank]; split; [split|];
+           intro X; try discriminate X; try reflexivity; try lia|]).
+    all: cbn [b_style b_names style_rank]; rewrite ?map_app; cbn [map fst]; reflexivity.
+Qed.
+
+(* from the initial state: the builder panics on exactly the call sequences the order automaton rejects *)
+Theorem builder_order_checked : forall l : list (bstep V),
+  fold_left (@builder_step V) l (Some (@b_init V)) <> None <-> steps_ok 0 [] l = true.
+Proof.
+  intro l. apply (builder_order_checked_gen l (@b_init V)). unfold bwf, b_init. simpl.
+  split; [split|]; intro X; discriminate X.
+Qed.
+(* finish() adds nothing: its assert never fires on a state the methods can produce *)
+Lemma builder_pos_le : forall l b b', b_npos_only b <= b_npos b <= length (b_params b) ->
+  fold_left (@builder_step V) l (Some b) = Some b' -> b_npos_only b' <= b_npos b' <= length (b_params b').
+Proof.
+  induction l as [|st l IH]; intros b b' Hle H; cbn [fold_left] in H.
+  - inversion H; subst; auto.
+  - destruct (builder_step (Some b) st) as [b1|] eqn:E; [|rewrite fold_builder_none in H; discriminate].
+    apply (IH b1 b'); auto. clear H IH.
+    destruct b as [params names po pos sty args kwargs]. simpl in Hle.
+    destruct sty, args as [a|], kwargs as [k|]; destruct st as [n|n|n v|n|n| |]; unfold builder_step, b_add in E;
+      cbn [b_params b_names b_npos_only b_npos b_style b_args b_kwargs style_rank is_some_nat negb andb
+           Nat.ltb Nat.leb Nat.eqb] in E;
+      try discriminate E;
+      try (destruct (assoc_nat n names); try discriminate E);
+      inversion E; subst; cbn [b_npos_only b_npos b_params]; rewrite ?app_length; cbn [length]; lia.
+Qed.
+Theorem run_builder_order_checked : forall l : list (bstep V),
+  run_builder l <> None <-> steps_ok 0 [] l = true.
+Proof.
+  intro l. rewrite <- builder_order_checked. unfold run_builder, b_finish.
+  destruct (fold_left (@builder_step V) l (Some (@b_init V))) as [b'|] eqn:E; [|tauto].
+  assert (H : b_npos_only b' <= b_npos b' <= length (b_params b')) by (apply (builder_pos_le l (@b_init V) b'); simpl; auto).
+  destruct H as [H _]. apply Nat.leb_le in H. rewrite H. split; intros _; discriminate.
+Qed.
+(* the calls a well-formed def makes are in order *)
+Corollary steps_of_ok : forall sg : sig, wf_sig sg = true -> steps_ok 0 [] (steps_of sg) = true.
+Proof. intros sg H. apply run_builder_order_checked. rewrite (builder_builds_spec sg H). discriminate. Qed.
+
+(* ====================== completeness of the static checks ====================== *)
+
+(* ---- completeness of the static checks ---- *)
+(* the two conditions of DefParams::unpack that wf_sig does not contain: no required positional parameter after a
+   defaulted one ("positional parameter after non positional"), and *args / **kwargs carry no default *)
+Fixpoint dflt_ok (so : bool) (s : sig) : bool :=
+  match s with
+  | [] => true
+  | p :: r =>
+      match pkd p with
+      | PosOnly | PosOrKw => (match pdef p with None => negb so | Some _ => true end) && dflt_ok (so || is_some (pdef p)) r
+      | KwOnly => dflt_ok (so || is_some (pdef p)) r
+      | VarArgs | VarKw => negb (is_some (pdef p)) && dflt_ok so r
+      end
+  end.
+
+(* a well-formed signature written back as a parameter list: `/` after the last positional-only parameter, a bare `*`
+   before the first keyword-only parameter when there is no *args *)
+Definition slash_if (st : nat) : list aparam := if st <? 1 then [ASlash] else [].
+Definition star_if (st : nat) : list aparam := if st <? 2 then [ANoArgs] else [].
+Fixpoint render (st : nat) (s : sig) : list aparam :=
+  match s with
+  | [] => slash_if st
+  | p :: r =>
+      match pkd p with
+      | PosOnly => ANormal (pname p) (pdef p) :: render st r
+      | PosOrKw => slash_if st ++ ANormal (pname p) (pdef p) :: render 1 r
+      | VarArgs => slash_if st ++ AArgs (pname p) :: render 2 r
+      | KwOnly => slash_if st ++ star_if st ++ ANormal (pname p) (pdef p) :: render 2 r
+      | VarKw => slash_if st ++ AKwArgs (pname p) :: render 3 r
+      end
+  end.
+Definition render_sig (s : sig) : list aparam := render (if existsb (@is_posonly V) s then 0 else 1) s.
+
+Definition is_slash (p : aparam) : bool := match p with ASlash => true | _ => false end.
+Lemma render_slash : forall s st, existsb is_slash (render st s) = (st <? 1).
+Proof.
+  induction s as [|p r IH]; intros st; simpl.
+  - unfold slash_if. destruct (st <? 1); reflexivity.
+  - destruct (pkd p); simpl; rewrite ?existsb_app; unfold slash_if, star_if;
+      destruct (st <? 1) eqn:E1; destruct (st <? 2) eqn:E2; simpl; rewrite ?IH; simpl; auto.
+Qed.
+
+Lemma existsb_false_notin : forall n l, existsb (Nat.eqb n) l = false -> ~ In n l.
+Proof.
+  induction l as [|x l IH]; simpl; intros H; [tauto|]. apply orb_false_elim in H. destruct H as [H1 H2].
+  apply Nat.eqb_neq in H1. intros [Hc|Hc]; [congruence | apply IH; auto].
+Qed.
+
+Lemma render_unpack : forall (s : sig) st so argset,
+  order_ok (state_stage st) (map (@pkd V) s) = true -> nodupb (map (@pname V) s) = true ->
+  (forall n, In n argset -> ~ In n (map (@pname V) s)) -> dflt_ok so s = true -> st <= 3 ->
+  unpack_loop (render st s) st so argset = Some s.
+Proof.
+  induction s as [|[n k d] r IH]; intros st so argset Ho Hn Ha Hd Hst.
+  - simpl. unfold slash_if. destruct st as [|st]; reflexivity.
+  - simpl in Hn. apply andb_prop in Hn. destruct Hn as [Hn1 Hn2]. apply negb_true_iff in Hn1.
+    assert (Hnot : existsb (Nat.eqb n) argset = false).
+    { apply existsb_notin. intros Hc. apply (Ha n Hc). now left. }
+    assert (Ha' : forall m, In m (n :: argset) -> ~ In m (map (@pname V) r)).
+    { intros m [<-|Hm]; [now apply existsb_false_notin|]. intros Hc. apply (Ha m Hm). now right. }
+    destruct st as [|[|[|[|st]]]]; try lia; destruct k; simpl in Ho; try discriminate Ho.
+    all: simpl in Hd; destruct d as [dv|]; destruct so; simpl in Hd; try discriminate Hd.
+    all: simpl; rewrite ?Hnot; simpl.
+    all: rewrite IH; auto; try lia.
+Qed.
+
+Theorem def_unpack_complete : forall sg : sig, wf_sig sg = true -> dflt_ok false sg = true ->
+  def_unpack (render_sig sg) = Some sg.
+Proof.
+  intros sg Hwf Hd. unfold wf_sig in Hwf. apply andb_prop in Hwf. destruct Hwf as [Ho Hn].
+  unfold def_unpack, render_sig.
+  change (fun p : aparam => match p with ASlash => true | _ => false end) with is_slash.
+  rewrite render_slash.
+  destruct (existsb (@is_posonly V) sg) eqn:E; simpl.
+  - apply render_unpack; auto.
+  - apply render_unpack; auto. simpl.
+    assert (F : Forall (fun k => 1 <= stage k) (map (@pkd V) sg)).
+    { rewrite Forall_forall. intros k Hin. apply in_map_iff in Hin. destruct Hin as (p & <- & Hp).
+      destruct (pkd p) eqn:Ek; simpl; try lia. exfalso.
+      assert (existsb (@is_posonly V) sg = true); [|congruence].
+      apply existsb_exists. exists p. split; auto. unfold is_posonly. now rewrite Ek. }
+    clear -Ho F. destruct sg as [|p r]; auto. simpl in *. inversion F; subst.
+    rewrite Ho, andb_true_r. destruct (stage (pkd p)); [lia | reflexivity].
+Qed.
+
+(* conversely every accepted parameter list satisfies the default-order condition: the image of DefParams::unpack
+   is exactly { sg | wf_sig sg /\ dflt_ok false sg } *)
+Lemma unpack_loop_dflt : forall ps st so argset (s : sig), unpack_loop ps st so argset = Some s ->
+  (2 <= st -> Forall (fun p => is_positional p = false) s) /\ dflt_ok so s = true.
+Proof.
+  induction ps as [|p r IH]; intros st so argset s H; cbn -[Nat.leb Nat.ltb] in H.
+  - inversion H; subst. split; auto.
+  - destruct p as [n d| | |n|n]; cbn -[Nat.leb Nat.ltb] in H.
+    + destruct (existsb (Nat.eqb n) argset); [discriminate|].
+      destruct (3 <=? st) eqn:E3; [discriminate|]. apply Nat.leb_gt in E3.
+      destruct (match d with None => so && (st <? 2) | Some _ => false end) eqn:Ed; [discriminate|].
+      destruct (unpack_loop r st (so || is_some d) (n :: argset)) as [s'|] eqn:Er; [|discriminate].
+      simpl in H. inversion H; subst s. clear H. destruct (IH _ _ _ _ Er) as [P D]. split.
+      * intros H2. constructor; auto. unfold is_positional. simpl.
+        destruct (st <? 1) eqn:E1; [apply Nat.ltb_lt in E1; lia|]. destruct (st <? 2) eqn:E2'; [apply Nat.ltb_lt in E2'; lia|]. reflexivity.
+      * simpl. destruct (st <? 1) eqn:E1; [|destruct (st <? 2) eqn:E2]; simpl; rewrite ?D, ?andb_true_r; auto.
+        all: destruct d; auto; destruct so; auto; simpl in Ed.
+        all: try congruence.
+        all: apply Nat.ltb_lt in E1; apply Nat.ltb_ge in Ed; lia.
+    + destruct (2 <=? st) eqn:E2; [discriminate|]. destruct (IH _ _ _ _ H) as [P D]. split; auto.
+    + destruct (1 <=? st) eqn:E1; [discriminate|]. destruct (IH _ _ _ _ H) as [P D]. split; auto.
+      intros H2. apply Nat.leb_gt in E1. lia.
+    + destruct (existsb (Nat.eqb n) argset); [discriminate|].
+      destruct (2 <=? st) eqn:E2; [discriminate|].
+      destruct (unpack_loop r 2 so (n :: argset)) as [s'|] eqn:Er; [|discriminate].
+      simpl in H. inversion H; subst s. destruct (IH _ _ _ _ Er) as [P D]. split.
+      * intros H2. apply Nat.leb_gt in E2. lia.
+      * simpl. exact D.
+    + destruct (existsb (Nat.eqb n) argset); [discriminate|].
+      destruct (3 <=? st) eqn:E3; [discriminate|].
+      destruct (unpack_loop r 3 so (n :: argset)) as [s'|] eqn:Er; [|discriminate].
+      simpl in H. inversion H; subst s. destruct (IH _ _ _ _ Er) as [P D]. split.
+      * intros H2. constructor; auto.
+      * simpl. exact D.
+Qed.
+Theorem def_unpack_dflt_ok : forall ps (sg : sig), def_unpack ps = Some sg -> dflt_ok false sg = true.
+Proof. intros ps sg H. unfold def_unpack in H. apply unpack_loop_dflt in H. apply H. Qed.
+Theorem def_unpack_image : forall sg : sig,
+  (exists ps, def_unpack ps = Some sg) <-> (wf_sig sg = true /\ dflt_ok false sg = true).
+Proof.
+  intro sg. split.
+  - intros [ps H]. split; [eapply def_unpack_wf; eauto | eapply def_unpack_dflt_ok; eauto].
+  - intros [W D]. exists (render_sig sg). now apply def_unpack_complete.
+Qed.
+
+(* the duplicate check of the named arguments accepts every duplicate-free list *)
+Lemma names_unique_complete_gen : forall l seen, NoDup l -> (forall n, In n seen -> ~ In n l) ->
+  names_unique seen l = true.
+Proof.
+  induction l as [|n r IH]; intros seen Hnd Hs; simpl; auto.
+  inversion Hnd as [|? ? Hnotin Hnd']; subst.
+  rewrite existsb_notin by (intros Hc; apply (Hs n Hc); now left).
+  apply IH; auto. intros m [<-|Hm]; auto. intros Hc. apply (Hs m Hm). now right.
+Qed.
+Theorem names_unique_complete : forall l, NoDup l -> names_unique [] l = true.
+Proof. intros l H. apply names_unique_complete_gen; auto. Qed.
+Theorem names_unique_iff : forall l, names_unique [] l = true <-> NoDup l.
+Proof. intro l. split; [apply call_unpack_nodup0 | apply names_unique_complete]. Qed.
+
+(* ====================== ill-typed *seq / **map ====================== *)
+
+(* ---- calls whose *seq / **map operands may be ill-typed ---- *)
+Lemma collect_slow_x_typed : forall (ps : pspec V) (c : xcall V), x_typed c = true ->
+  collect_slow_x ps c = lift_x (collect_slow ps (call_of_x c)).
+Proof.
+  intros ps [pos named star kw] T. unfold collect_slow_x, collect_slow, call_of_x, x_typed in *.
+  cbn [x_pos x_named x_star x_kw c_pos c_named c_star c_kw] in *.
+  destruct (if length pos <=? ps_npos ps
+            then (zip_fill pos (repeat None (length (ps_kinds ps))), length pos, [])
+            else fill_pos (ps_npos ps) pos (repeat None (length (ps_kinds ps))) 0 []) as [[s1 next1] star1].
+  destruct (do_named ps named s1 None None) as [[s2 kw2] low].
+  destruct star as [[vs|]|]; try discriminate T.
+  - destruct (fill_pos (ps_npos ps) vs s2 next1 star1) as [[s3 next3] star3].
+    destruct (clash low next3); [reflexivity|].
+    destruct kw as [[m|]|]; try discriminate T.
+    + destruct (do_kwmap ps m s3 kw2) as [[s5 kw5]|e]; reflexivity.
+    + reflexivity.
+  - destruct (clash low next1); [reflexivity|].
+    destruct kw as [[m|]|]; try discriminate T.
+    + destruct (do_kwmap ps m s2 kw2) as [[s5 kw5]|e]; reflexivity.
+    + reflexivity.
+Qed.
+
+Lemma collect_slow_x_illtyped : forall (ps : pspec V) (c : xcall V), x_typed c = false ->
+  exists e, collect_slow_x ps c = XFail e.
+Proof.
+  intros ps [pos named star kw] T. unfold collect_slow_x, x_typed in *.
+  cbn [x_pos x_named x_star x_kw] in *.
+  destruct (if length pos <=? ps_npos ps
+            then (zip_fill pos (repeat None (length (ps_kinds ps))), length pos, [])
+            else fill_pos (ps_npos ps) pos (repeat None (length (ps_kinds ps))) 0 []) as [[s1 next1] star1].
+  destruct (do_named ps named s1 None None) as [[s2 kw2] low].
+  destruct star as [[vs|]|].
+  - destruct (fill_pos (ps_npos ps) vs s2 next1 star1) as [[s3 next3] star3].
+    destruct (clash low next3); [eexists; reflexivity|].
+    destruct kw as [[m|]|]; try discriminate T. eexists; reflexivity.
+  - eexists; reflexivity.
+  - destruct (clash low next1); [eexists; reflexivity|].
+    destruct kw as [[m|]|]; try discriminate T. eexists; reflexivity.
+Qed.
+
+Lemma fast_guard_x_typed : forall (ps : pspec V) (c : xcall V), x_typed c = true ->
+  fast_guard_x ps c = fast_guard ps (call_of_x c).
+Proof.
+  intros ps [pos named star kw] T. unfold fast_guard_x, fast_guard, call_of_x, x_typed in *. simpl in *.
+  destruct star as [[vs|]|]; try discriminate T; destruct kw as [[m|]|]; try discriminate T; reflexivity.
+Qed.
+Lemma fast_guard_x_illtyped : forall (ps : pspec V) (c : xcall V), x_typed c = false -> fast_guard_x ps c = false.
+Proof.
+  intros ps [pos named star kw] T. unfold fast_guard_x, x_typed in *. simpl in *.
+  destruct star as [[vs|]|]; destruct kw as [[m|]|]; try discriminate T; simpl; rewrite ?andb_false_r; reflexivity.
+Qed.
+
+Theorem collect_x_typed : forall (sg : sig) (c : xcall V), x_typed c = true ->
+  collect_x sg c = lift_x (collect sg (call_of_x c)).
+Proof.
+  intros sg c T. unfold collect_x, collect_inline_x, collect, collect_inline.
+  rewrite (fast_guard_x_typed _ _ T). destruct (fast_guard (build_spec sg) (call_of_x c)).
+  - reflexivity.
+  - apply collect_slow_x_typed, T.
+Qed.
+
+(* the spec equality on the extended calls: an ill-typed `*seq` / `**map` makes the call fail, and nothing else changes *)
+Theorem collect_x_eq_spec : forall (sg : sig) (c : xcall V),
+  wf_sig sg = true -> NoDup (map fst (x_named c)) ->
+  outcome_of_x (collect_x sg c) = outcome_of_spec (bind_x sg c).
+Proof.
+  intros sg c Hwf Hnd. destruct (x_typed c) eqn:T.
+  - rewrite (collect_x_typed sg c T).
+    assert (B : bind_x sg c = bind sg (call_of_x c)).
+    { unfold bind_x, x_typed in *. destruct (x_star c) as [[vs|]|]; try discriminate T;
+        destruct (x_kw c) as [[m|]|]; try discriminate T; reflexivity. }
+    rewrite B, <- (collect_eq_spec sg (call_of_x c) Hwf Hnd).
+    destruct (collect sg (call_of_x c)); reflexivity.
+  - unfold collect_x, collect_inline_x. rewrite (fast_guard_x_illtyped _ _ T).
+    destruct (collect_slow_x_illtyped (build_spec sg) c T) as [e E]. rewrite E.
+    unfold bind_x, x_typed in *. destruct (x_star c) as [[vs|]|]; try reflexivity;
+      destruct (x_kw c) as [[m|]|]; try discriminate T; reflexivity.
+Qed.
+(* on well-typed calls the extended binder is the old one *)
+Theorem collect_x_embed : forall (sg : sig) (c : call), collect_x sg (x_of_call c) = lift_x (collect sg c).
+Proof.
+  intros sg [pos named star kw].
+  assert (T : x_typed (x_of_call (mkCall pos named star kw)) = true) by (destruct star, kw; reflexivity).
+  rewrite (collect_x_typed _ _ T). f_equal. f_equal. unfold call_of_x, x_of_call. simpl. destruct star, kw; reflexivity.
+Qed.
+
 End Proofs.
 
 Arguments def_unpack {V}.
+Arguments dflt_ok {V}.
+Arguments render {V}.
+Arguments render_sig {V}.
 Arguments ANormal {V}.
 Arguments ANoArgs {V}.
 Arguments ASlash {V}.
